@@ -378,6 +378,13 @@ func genC13(t *rapid.T) *C13Case {
 			}
 		}
 	}
+	// a label (and a goto to it) named like a constant: the label stays, the argument is substituted
+	if scripts := f.Scripts(); len(scripts) > 0 && rapid.IntRange(0, 3).Draw(t, "plantlabel") == 0 {
+		d := defs[rapid.IntRange(0, len(defs)-1).Draw(t, "which")]
+		sc := scripts[rapid.IntRange(0, len(scripts)-1).Draw(t, "labelscript")]
+		pos := rapid.IntRange(0, len(sc.Body.Stmts)).Draw(t, "labelpos")
+		sc.Body.Stmts = append(sc.Body.Stmts[:pos], append([]*Stmt{sLabel(d.name)}, sc.Body.Stmts[pos:]...)...)
+	}
 	// redefinition
 	if rapid.IntRange(0, 7).Draw(t, "redef") == 0 {
 		c.Redef = true
@@ -479,7 +486,7 @@ func TestC13_Regress(t *testing.T) { runRegress(t, "C13") }
 
 func TestC13_Consts(t *testing.T) {
 	st := stat("C13")
-	st.SetRule("whole files with 1-5 const definitions (values of 1-4 tokens: numbers, identifiers, arithmetic operators, balanced parentheses, earlier constants) inserted at random positions and used (before and after their definition) at every documented site: command and AutoVar arguments, flag/var/defeated operands, comparison values incl. value(), switch operands, case values, map-script table vars and values, mart items; the same names planted as command names, movement steps, text content and map-script labels; 1 in 8 files redefines a constant. oracle: byte-identical output and same acceptance as the twin with definitions removed and later documented uses written out; redefinition rejected on its own line. non-trivial = a constant defined from another constant and >= 3 uses; distinct by source text")
+	st.SetRule("whole files with 1-5 const definitions (values of 1-4 tokens: numbers, identifiers, arithmetic operators, balanced parentheses, earlier constants) inserted at random positions and used (before and after their definition) at every documented site: command and AutoVar arguments, flag/var/defeated operands, comparison values incl. value(), switch operands, case values, map-script table vars and values, mart items; the same names planted as command names, movement steps, text content, labels and map-script labels; 1 in 8 files redefines a constant. oracle: byte-identical output and same acceptance as the twin with definitions removed and later documented uses written out; redefinition rejected on its own line. non-trivial = a constant defined from another constant and >= 3 uses; distinct by source text")
 	st.Assume("values with parentheses are only used where the written-out form is accepted too (arguments, value(), case values, table entries)", "no commas, colons, braces or boolean operators in constant values")
 	runRapid(t, "C13", "TestC13_Consts", genC13, checkC13, c13Src)
 }
